@@ -185,5 +185,83 @@ class SqlalchemyKind(Kind):
         return ("class Base(orm.DeclarativeBase):\n    pass\nclass Model(Base):\n    __tablename__ = f'm_{N}'\n" + "".join(lines))
 
 
-KINDS = [DataclassKind(), NamedTupleKind(), TypedDictKind(), TypedDictTotalFalseKind(), AttrsKind(), PydanticKind(), SqlalchemyKind()]
+def _defaults_last(shape) -> Optional[str]:
+    seen_opt = False
+    for f in shape:
+        if not f["req"]:
+            seen_opt = True
+        elif seen_opt:
+            return "a positional parameter without default cannot follow one with default (Python)"
+    return None
+
+
+def _body(fields) -> str:
+    return "".join(f"    {n}: {a}\n" if req else f"    {n}: {a} = {d!r}\n" for n, a, req, d in fields) or "    pass\n"
+
+
+class DataclassPositionalKind(DataclassKind):
+    """@dataclass without kw_only: positional-or-keyword constructor parameters"""
+    name = "dataclass_positional"
+
+    def supports(self, shape, sch):
+        return _defaults_last(shape)
+
+    def source(self, shape, names, with_log=False):
+        return "@dataclasses.dataclass\nclass Model:\n" + _body(self._fields(shape, names)) + self._hook(with_log)
+
+
+class DataclassInheritedKind(DataclassKind):
+    """the first field is declared by a base class, the rest by the model (field order: base first, as in the logical model)"""
+    name = "dataclass_inherited"
+
+    def source(self, shape, names, with_log=False):
+        fs = list(self._fields(shape, names))
+        return ("@dataclasses.dataclass(kw_only=True)\nclass Base:\n" + _body(fs[:1]) + "@dataclasses.dataclass(kw_only=True)\nclass Model(Base):\n"
+                + _body(fs[1:]) + self._hook(with_log))
+
+
+class AttrsPositionalKind(AttrsKind):
+    name = "attrs_positional"
+
+    def supports(self, shape, sch):
+        return _defaults_last(shape)
+
+    def source(self, shape, names, with_log=False):
+        return "@attrs.define\nclass Model:\n" + _body(self._fields(shape, names)) + self._hook(with_log)
+
+
+class AttrsInheritedFrozenKind(AttrsKind):
+    """frozen slotted attrs classes, first field inherited"""
+    name = "attrs_inherited_frozen"
+
+    def source(self, shape, names, with_log=False):
+        fs = list(self._fields(shape, names))
+        return ("@attrs.frozen(kw_only=True)\nclass Base:\n" + _body(fs[:1]) + "@attrs.frozen(kw_only=True)\nclass Model(Base):\n" + _body(fs[1:])
+                + self._hook(with_log))
+
+
+class PydanticInheritedKind(PydanticKind):
+    name = "pydantic_inherited"
+
+    def source(self, shape, names, with_log=False):
+        fs = list(self._fields(shape, names))
+        return "class Base(pydantic.BaseModel):\n" + _body(fs[:1]) + "class Model(Base):\n" + _body(fs[1:]) + self._hook(with_log)
+
+
+class TypedDictInheritedKind(TypedDictKind):
+    """keys split over a total=True base and a total=False child with Required[] markers"""
+    name = "typeddict_inherited"
+
+    def source(self, shape, names, with_log=False):
+        fs = list(self._fields(shape, names))
+        base = "".join(f"    {n}: typing.{'Required' if req else 'NotRequired'}[{a}]\n" for n, a, req, d in fs[:1]) or "    pass\n"
+        child = "".join(f"    {n}: typing.Required[{a}]\n" if req else f"    {n}: {a}\n" for n, a, req, d in fs[1:]) or "    pass\n"
+        return "class Base(typing.TypedDict):\n" + base + "class Model(Base, total=False):\n" + child
+
+
+MAIN_KINDS = [DataclassKind(), NamedTupleKind(), TypedDictKind(), TypedDictTotalFalseKind(), AttrsKind(), PydanticKind(), SqlalchemyKind()]
+# other ways to declare the same logical model in the same kinds: each program meets some of them (chosen by its hash)
+VARIANT_KINDS = [DataclassPositionalKind(), DataclassInheritedKind(), AttrsPositionalKind(), AttrsInheritedFrozenKind(), PydanticInheritedKind(),
+                 TypedDictInheritedKind()]
+KINDS = MAIN_KINDS + VARIANT_KINDS
 BY_NAME = {k.name: k for k in KINDS}
